@@ -412,7 +412,7 @@ def jobs(tier):
 
 
 BOUNDS = {
-    "quick": "items N<=4 (sorted/nlargest/nsmallest N<=3, pools N<=3), keys and n unbounded ints, key absent/sync, default/initial/start present or absent, reverse both, one unorderable item at any position, source kinds list / one-shot iterator / async generator; mixed numerics and hashables from concrete pools chosen by symbolic selectors",
+    "quick": "items N<=4 (sorted/nlargest/nsmallest N<=3, pools N<=3), keys and n unbounded ints, key absent/sync (also as callable object, awaitable-returning function and falsy callable object over items that cannot be compared themselves), default/initial/start present or absent, comparisons raising TypeError or ValueError, reverse both, one unorderable item at any position, source kinds list / one-shot iterator / async generator; mixed numerics and hashables from concrete pools chosen by symbolic selectors",
     "thorough": "N<=5 (sorted/n* N<=4, pools N<=4)",
 }
 OUTSIDE = ["str/bytes start values of sum", "mapping arguments to dict", "NaN / partial orders", "lengths above the bound", "async key functions are covered by C03"]
